@@ -1619,11 +1619,11 @@ impl<'bump> String<'bump> {
         let len = self.len();
         let start = match range.start_bound() {
             Included(&n) => n,
-            Excluded(&n) => n + 1,
+            Excluded(&n) => n.checked_add(1).expect("attempted to index slice from after maximum usize"),
             Unbounded => 0,
         };
         let end = match range.end_bound() {
-            Included(&n) => n + 1,
+            Included(&n) => n.checked_add(1).expect("attempted to index slice up to maximum usize"),
             Excluded(&n) => n,
             Unbounded => len,
         };
@@ -1681,11 +1681,11 @@ impl<'bump> String<'bump> {
 
         match range.start_bound() {
             Included(&n) => assert!(self.is_char_boundary(n)),
-            Excluded(&n) => assert!(self.is_char_boundary(n + 1)),
+            Excluded(&n) => assert!(self.is_char_boundary(n.checked_add(1).expect("attempted to index slice from after maximum usize"))),
             Unbounded => {}
         };
         match range.end_bound() {
-            Included(&n) => assert!(self.is_char_boundary(n + 1)),
+            Included(&n) => assert!(self.is_char_boundary(n.checked_add(1).expect("attempted to index slice up to maximum usize"))),
             Excluded(&n) => assert!(self.is_char_boundary(n)),
             Unbounded => {}
         };
